@@ -82,6 +82,8 @@ def generate(rng, index: int, tier: str) -> dict:
     bounds = [0] + cuts + [n_zones]
     acs4, acs5 = [], []
     fmt = rng.choice(["bitmap", "range"]) if n_acs > 1 else rng.choice(["bitmap", "range", "single"])
+    # AC numbers need not start at 0 nor be contiguous
+    ac_ids = list(range(n_acs)) if rng.random() < 0.6 else sorted(rng.sample(range(4), n_acs))
     for i in range(n_acs):
         name = rng.choice(["UNIT", "Daikin", "Upstairs", "A"]) + str(i)
         modes = G.subset(rng, MODES, p_all=0.5, min_n=1)
@@ -90,9 +92,9 @@ def generate(rng, index: int, tier: str) -> dict:
         st = _abstract_ac_state(rng)
         tm = {"on": G.timer(rng), "off": G.timer(rng)}
         rng_z = list(range(bounds[i], bounds[i + 1]))
-        a4 = {"ac": i, "name": name, "modes": modes, "fans": fans, "min_sp": lo, "max_sp": hi, "start_group": bounds[i], "group_count": len(rng_z),
+        a4 = {"ac": ac_ids[i], "name": name, "modes": modes, "fans": fans, "min_sp": lo, "max_sp": hi, "start_group": bounds[i], "group_count": len(rng_z),
               "groups": rng_z if fmt == "bitmap" else None, "state": _to4_ac(st), "timer": copy.deepcopy(tm)}
-        a5 = {"ac": i, "name": name, "modes": modes, "fans": fans, "min_cool": lo, "max_cool": hi, "min_heat": lo, "max_heat": hi,
+        a5 = {"ac": ac_ids[i], "name": name, "modes": modes, "fans": fans, "min_cool": lo, "max_cool": hi, "min_heat": lo, "max_heat": hi,
               "start_zone": bounds[i], "zone_count": len(rng_z), "state": _to5_ac(st), "timer": copy.deepcopy(tm)}
         if st["error"]:
             a4["errtext"] = a5["errtext"] = "E%d" % st["error"]
@@ -117,7 +119,7 @@ def generate(rng, index: int, tier: str) -> dict:
         if r < 0.45:
             k = rng.random()
             if k < 0.45:
-                ac = rng.randrange(n_acs)
+                ac = rng.choice(ac_ids)
                 full = _abstract_ac_state(rng)
                 keys = rng.sample(sorted(full), rng.randint(1, 4))
                 f = {x: full[x] for x in keys}
@@ -134,13 +136,13 @@ def generate(rng, index: int, tier: str) -> dict:
                 tl4.append({"at": t, "op": "console.set", "entity": ["zone", z], "fields": _to4_zone(full)})
                 tl5.append({"at": t, "op": "console.set", "entity": ["zone", z], "fields": _to5_zone(full)})
             else:
-                ac = rng.randrange(n_acs)
+                ac = rng.choice(ac_ids)
                 which = rng.choice(["on", "off"])
                 tm = G.timer(rng)
                 for tl in (tl4, tl5):
                     tl.append({"at": t, "op": "console.set", "entity": ["timer", ac], "fields": {which: dict(tm)}, "only": False})
         else:
-            inst_view = {"acs": [{"ac": i} for i in range(n_acs)], "zones": [{"zone": z} for z in range(n_zones)]}
+            inst_view = {"acs": [{"ac": i} for i in ac_ids], "zones": [{"zone": z} for z in range(n_zones)]}
             c = apicalls.one_call(rng, 5, inst_view, "c04")
             if c["call"] == "set_target_temperature":
                 c["args"]["temperature"] = float(rng.randint(10, 35))
